@@ -78,6 +78,7 @@ AlphaFalsy == AlphaOf([Query |-> {"s", "i", "bo", "fl", "idf", "o", "lp"}, T |->
 \* two operations, each with its own fragments and its own variable (one Boolean in a directive, one Int in an argument)
 AlphaOps2 == AlphaOf([Query |-> {"f", "s"}])
 ArgOptsOps2 == [ f |-> {<<ArgV("a", Lit("var", "n"))>>}, g |-> {<<ArgV("r", Lit("int", 2))>>} ]
+AlphaSchedP == AlphaOf([Query |-> {"lp"}, P |-> {"o"}, A |-> {"o"}, T |-> {"s", "d"}])
 OKindsRaise == {[o |-> "raise"]}
 VarValsSmall == [ v |-> {Bool(TRUE), Bool(FALSE)}, w |-> {Bool(FALSE)}, n |-> {Int(3)}, m |-> {Int(4)}, x |-> {Str("xs")}, y |-> {Int(5)} ]
 AlphaSub == AlphaOf([Subscription |-> {"ev", "evs"}, T |-> {"s", "sn"}])
